@@ -579,6 +579,16 @@ theorem constants_tie :
     AVRO_SLOW_MAX = 10 ∧ AVRO_SLOW_LAST_IDX = 9 ∧ AVRO_SLOW_LAST_LIMIT = 2 ∧
     AVRO_STREAM_LAST_SHIFT = 63 ∧ AVRO_STREAM_LAST_LIMIT = 2 ∧ AVRO_STREAM_SHIFT_STEP = 7 ∧
     MAX_VLQ_BYTE_LEN = 10 ∧ BITREADER_VLQ_STEP = 7 ∧
-    THRIFT_VEC_RESERVES_SIZE_FROM_INPUT_lost = false := by decide
+    THRIFT_VEC_RESERVES_SIZE_FROM_INPUT_lost = false ∧
+    -- shapes of the guards the model mirrors (LOST when the expression is edited)
+    SHAPE_BUFFER_SLICE_ASSERT_lost = false ∧ SHAPE_IPC_READ_BUFFER_lost = false ∧
+    SHAPE_AVRO_BLOCK_RESERVE_lost = false ∧ SHAPE_AVRO_BLOCK_COUNT_SIGN_lost = false ∧ SHAPE_AVRO_BLOCK_SIZE_SIGN_lost = false ∧
+    SHAPE_AVRO_GET_BYTES_BOUND_lost = false ∧ SHAPE_AVRO_FAST_DISPATCH = 0x80 ∧ SHAPE_AVRO_STREAM_ERR_BEFORE_CONSUME = 1 ∧
+    SHAPE_TRY_PUSH_CHAR_BOUNDARY = 0x40 ∧ SHAPE_THRIFT_SKIP_BOOL_NO_DATA_lost = false ∧
+    SHAPE_THRIFT_DELTA_CHECKED_ADD_lost = false ∧ SHAPE_THRIFT_LIST_SIZE_I32_lost = false ∧
+    SHAPE_THRIFT_LIST_EMPTY_HEADER = 0 ∧ SHAPE_THRIFT_STOP_IGNORES_DELTA = 0 ∧
+    SHAPE_ZIGZAG_THRIFT = 1 ∧ SHAPE_ZIGZAG_AVRO_CURSOR = 1 ∧ SHAPE_ZIGZAG_AVRO_STREAM = 1 ∧ SHAPE_ZIGZAG_BITREADER = 1 ∧
+    SHAPE_DELTA_BLOCK_MULTIPLE = 128 ∧ SHAPE_DELTA_MINIBLOCK_MULTIPLE = 32 ∧
+    IPC_MAX_PREALLOC_BYTES = 64 * 1024 * 1024 := by decide
 
 end ArrowModel.C08
